@@ -85,7 +85,9 @@ impl<'a> Remote<'a> {
         }
         #[cfg(compio_verif)]
         compio_log::verif::point("exec.remote.wake_driver", self.ptr.as_ptr() as u64, notified as u64);
-        if !notified && let Some(ref waker) = shared.waker {
+        // Always wake once the id is in the queue: a wake sent while the queue was
+        // still full may already have been consumed by a drain that did not see it.
+        if let Some(ref waker) = shared.waker {
             waker.wake_by_ref();
         }
 
